@@ -200,7 +200,7 @@ def run(ctx):
         return
     quick = ctx.tier == "quick"
     farm = Farm(ctx, binp, gsort)
-    args = ["-mode", "all", "-n", 24 if quick else 400, "-limit", 5600000 if quick else 140000000,
+    args = ["-mode", "all", "-n", 24 if quick else 300, "-limit", 5600000 if quick else 30000000,
             "-runs", 6 if quick else 16]
     cdir = os.path.join(vlib.VERIF, "corpus", "C08")
     cfiles = sorted(os.path.join(cdir, n) for n in os.listdir(cdir) if n.endswith(".json")) if os.path.isdir(cdir) else []
